@@ -515,6 +515,7 @@ type verdict struct {
 	ProofPass bool   `json:"proof_stage_passed"`
 	Verifies  int    `json:"signature_checks_ok"`
 	Calls     int    `json:"signature_checks"`
+	StageNote string `json:"stage_note,omitempty"`
 }
 
 func proofStageError(kind string, err error) bool {
@@ -570,6 +571,28 @@ func (w *world) verifyParsed(kind string, b []byte, strict bool) (verdict, *reco
 	}()
 
 	v := verdict{Accepted: err == nil, ProofPass: !proofStageError(kind, err), Calls: len(w.rec.verifies)}
+
+	// the proof stage by itself, through the hook (the verdict no longer depends on the text of an error); the
+	// classification by prefix is kept for JWT envelopes only, and cross-checked here
+	if !strict { // (the strict run of the same bytes keeps the classification by prefix: the two are compared by the caller)
+		recMain, diMain := w.rec, w.di.verifies
+		w.rec = &recording{}
+
+		if perr, applies := w.proofStage(kind, b, strict); applies {
+			byPrefix := v.ProofPass
+			v.ProofPass = perr == nil
+
+			switch {
+			case perr != nil && (err == nil || !strings.Contains(err.Error(), perr.Error())):
+				v.StageNote = fmt.Sprintf("the proof stage alone fails (%v) but the entry point reports %v", perr, err)
+			case byPrefix != v.ProofPass:
+				v.StageNote = fmt.Sprintf("classification by error prefix (%v) disagrees with the proof stage run alone (%v): %v", byPrefix, v.ProofPass, err)
+			}
+		}
+
+		w.rec, w.di.verifies = recMain, diMain
+	}
+
 	if err != nil {
 		v.Err = err.Error()
 		if len(v.Err) > 160 {
@@ -875,6 +898,10 @@ func (w *world) runCase(tr *hx.Trace, gen string, cd caseDesc, doc map[string]in
 
 	if rec.contract != "" || recS.contract != "" {
 		fail("primitive-contract", rec.contract+recS.contract)
+	}
+
+	if vd.StageNote != "" {
+		fail("proof-stage-classification", vd.StageNote)
 	}
 
 	// every proof PRESENT in an accepted document must have been verified (whatever suites the verifier registered)
@@ -1229,6 +1256,63 @@ func objOrNil(b []byte) map[string]interface{} {
 	return m
 }
 
+func (w *world) vcOpts(strict bool) []verifiable.CredentialOpt {
+	opts := []verifiable.CredentialOpt{verifiable.WithJSONLDDocumentLoader(w.loader),
+		verifiable.WithEmbeddedSignatureSuites(w.verifierSuites()...), verifiable.WithPublicKeyFetcher(w.fetch),
+		verifiable.WithDataIntegrityVerifier(w.di.verifier)}
+	if w.diExpect != [3]string{} {
+		opts = append(opts, verifiable.WithExpectedDataIntegrityFields(w.diExpect[0], w.diExpect[1], w.diExpect[2]))
+	}
+
+	if strict {
+		opts = append(opts, verifiable.WithStrictValidation())
+	}
+
+	return opts
+}
+
+func (w *world) vpOpts(strict bool) []verifiable.PresentationOpt {
+	opts := []verifiable.PresentationOpt{verifiable.WithPresJSONLDDocumentLoader(w.loader),
+		verifiable.WithPresEmbeddedSignatureSuites(w.verifierSuites()...), verifiable.WithPresPublicKeyFetcher(w.fetch),
+		verifiable.WithPresDataIntegrityVerifier(w.di.verifier)}
+	if w.diExpect != [3]string{} {
+		opts = append(opts, verifiable.WithPresExpectedDataIntegrityFields(w.diExpect[0], w.diExpect[1], w.diExpect[2]))
+	}
+
+	if strict {
+		opts = append(opts, verifiable.WithPresStrictValidation())
+	}
+
+	return opts
+}
+
+// proofStage runs exactly the embedded-proof stage of the real entry point on the bytes (hook embedded_proof_verif.go:
+// checkEmbeddedProof with the options the entry point derives) - no classification of error texts.  The second result
+// is false when the hook does not apply (the bytes are no JSON object: a JWT envelope is decoded and refined first).
+func (w *world) proofStage(kind string, b []byte, strict bool) (error, bool) { //nolint:revive
+	if len(b) == 0 || b[0] != '{' {
+		return nil, false
+	}
+
+	var err error
+
+	func() {
+		defer func() {
+			if p := recover(); p != nil {
+				err = fmt.Errorf("panic: %v", p)
+			}
+		}()
+
+		if kind == "vc" {
+			err = verifiable.CheckEmbeddedProofVerif(b, w.vcOpts(strict)...)
+		} else {
+			err = verifiable.CheckPresEmbeddedProofVerif(b, w.vpOpts(strict)...)
+		}
+	}()
+
+	return err, true
+}
+
 // parseReal hands the bytes to the real entry point.
 func (w *world) parseReal(kind string, b []byte, strict bool) (error, map[string]interface{}) { //nolint:revive
 	var (
@@ -1237,16 +1321,7 @@ func (w *world) parseReal(kind string, b []byte, strict bool) (error, map[string
 	)
 
 	if kind == "vc" {
-		opts := []verifiable.CredentialOpt{verifiable.WithJSONLDDocumentLoader(w.loader),
-			verifiable.WithEmbeddedSignatureSuites(w.verifierSuites()...), verifiable.WithPublicKeyFetcher(w.fetch),
-			verifiable.WithDataIntegrityVerifier(w.di.verifier)}
-		if w.diExpect != [3]string{} {
-			opts = append(opts, verifiable.WithExpectedDataIntegrityFields(w.diExpect[0], w.diExpect[1], w.diExpect[2]))
-		}
-
-		if strict {
-			opts = append(opts, verifiable.WithStrictValidation())
-		}
+		opts := w.vcOpts(strict)
 
 		var vc *verifiable.Credential
 
@@ -1257,16 +1332,7 @@ func (w *world) parseReal(kind string, b []byte, strict bool) (error, map[string
 			}
 		}
 	} else {
-		opts := []verifiable.PresentationOpt{verifiable.WithPresJSONLDDocumentLoader(w.loader),
-			verifiable.WithPresEmbeddedSignatureSuites(w.verifierSuites()...), verifiable.WithPresPublicKeyFetcher(w.fetch),
-			verifiable.WithPresDataIntegrityVerifier(w.di.verifier)}
-		if w.diExpect != [3]string{} {
-			opts = append(opts, verifiable.WithPresExpectedDataIntegrityFields(w.diExpect[0], w.diExpect[1], w.diExpect[2]))
-		}
-
-		if strict {
-			opts = append(opts, verifiable.WithPresStrictValidation())
-		}
+		opts := w.vpOpts(strict)
 
 		var vp *verifiable.Presentation
 
